@@ -65,7 +65,7 @@ def make_jobs(chk):
             jobs.append(SessionJob("x%dv" % n, bytes([0x00, 0x63, op, 0x68]), stack, fl, sv, z=False, cmds=["steps"], cmp=drivers.CMP_C01))
     # longer programs mixing the re-enabled opcodes with the ordinary ones
     rng = chk.rng
-    for i in range(150 if quick else 3000):
+    for i in range(150 if quick else 20000):
         g = G.LongGen(rng, z=True, risk=0.0)
         jobs.append(SessionJob("xl%d" % i, g.generate(rng.choice([20, 60, 150])), [], [], "BASE", z=True, cmds=["steps"], cmp=drivers.CMP_C01))
     return jobs
